@@ -5,6 +5,7 @@
 -/
 import Rtp.Model.AV1Pay
 import Rtp.Model.AV1PayBytes
+import Rtp.Model.AV1PayIdx
 import Rtp.Model.AV1Depack
 import Rtp.Model.AV1DepackIdx
 import Rtp.Model.AV1Packet
@@ -65,8 +66,16 @@ def resyncObs (pre : List (Option Bytes)) (frame : List Bytes) : Pred.C15Av1.Obs
 
 /-! ### c08.av1 (AV1Payloader has no state: a history is a list of independent calls) -/
 
+/-- the model here is `payloadC`: the byte-level transcription with every index and slice expression
+    checked (a failed check is a panic).  `AV1B.payloadC_eq` and `AV1B.payloadB_eq` prove it equal
+    to `AV1.payload`, about which the theorems are stated. -/
+def payObs (m : UInt16) (input : Bytes) : Pred.PayObs :=
+  match AV1B.payloadC m input with
+  | some frags => Pred.PayObs.ofFrags frags
+  | none => { Pred.PayObs.ofFrags [] with panicked := true }
+
 def c08Obs (calls : List (UInt16 × Option Bytes)) : List Pred.PayObs :=
-  calls.map (fun (m, i) => Pred.PayObs.ofFrags (AV1B.payloadB m (i.getD [])))
+  calls.map (fun (m, i) => payObs m (i.getD []))
 
 /-! ### c09.av1 -/
 
